@@ -170,6 +170,18 @@ def r4_limit_provenance(ctx):
             R.bad("C11.R4", key, "connection limit: %s" % ("; ".join(w for _, w in bad) or "no origin in max_connections"), where(c))
         else:
             R.ok("C11.R4", key, "the connection limit is ServerConfig.max_connections", where(c))
+    # every public way of setting the connection limit reaches the guard that enforces it: a `max_connections` setter of
+    # a type that owns a ConnectionGuard must rebuild that guard (the guard, not ServerConfig.max_connections, is what
+    # TowerServiceNoHttp::call consults)
+    for b in F.real_bodies():
+        if b.crate != SERVER or is_test_body(b) or not b.path.endswith("::max_connections") or b.kind != "AssocFn":
+            continue
+        adt = F.adt((b.impl_self or "").split("<")[0])
+        if adt is None or not any("ConnectionGuard" in (f_.get("ty") or "") for f_ in adt["variants"][0]["fields"]):
+            continue
+        R.fn(b)
+        has = [c for c in sites if c.body.path == b.path]
+        R.check(bool(has), "C11.R4", "%s:rebuilds-guard" % fkey(b), "%s rebuilds the ConnectionGuard it owns" % short(b.path), "%s owns the ConnectionGuard that enforces the limit but does not rebuild it: the limit set here is ignored and the guard created earlier (default 100) keeps deciding" % short(b.path), "%s:%d" % (b.file, b.lo))
     nb = F.one(r"^jsonrpsee_server::future::ConnectionGuard::new$")
     trl = ctx.tracer(follow_callers=False, follow_fields=False)
     sem = nb.calls_to(r"Semaphore::new$")
@@ -186,13 +198,50 @@ def r4_limit_provenance(ctx):
 
 
 
+def r5_ws_close_reasons(ctx):
+    """a connection the server gives up on (peer gone, read error, missed pings) is reported as *closed*, never as 'server
+    stopped': only Receive::ConnectionClosed / Err make the connection task finish at once and free its slot, whereas
+    Receive::Stopped makes it wait for every in-flight call. So Receive::Stopped is produced only on the arm of the
+    select where the stop future itself completed."""
+    F, R = ctx.F, ctx.R
+    tr = ctx.tracer(follow_callers=False, follow_fields=False)
+    b = F.one(r"^jsonrpsee_server::transport::ws::try_recv::\{closure#0\}$")
+    R.fn(b)
+    stops = [(bi, st) for bi, blk in enumerate(b.blocks) if bi in b.reachable and not blk.get("cleanup") for st in blk["st"]
+             if st["s"] == "assign" and st["rv"]["k"] == "agg" and st["rv"].get("adt", "").endswith("ws::Receive") and st["rv"].get("variant") == "Stopped"]
+    R.floor("C11.R5", len(stops), 1, "Receive::Stopped constructions in try_recv")
+    # the outer select: the one whose second future is the stop future (try_recv's `stopped` argument, an upvar of the coroutine)
+    right_t = set()
+    for c in b.calls_to(r"future::select$"):
+        ty = b.locals[op_place(c.args[1])["l"]]["ty"] if op_place(c.args[1]) is not None else ""
+        # the stop future's type is the coroutine's generic S; the inner select's second argument is a stream `Next<..>`
+        if "Next<" in ty or "Select<" in ty:
+            continue
+        vl, rblk = awaited_value_local(b, c)
+        if vl is None:
+            # select(..) is awaited through IntoFuture: find the await of its result
+            for c2 in b.calls_to(r"IntoFuture::into_future$"):
+                if arg_is_local(b, c2.args[0], c.dest["l"]):
+                    vl, rblk = awaited_value_local(b, c2)
+        if vl is None:
+            continue
+        for sb, arms, other in flow.switch_on(b, vl):
+            t = arms.get("1") or (other if "0" in arms else None)
+            if t is not None:
+                right_t.add(t)
+    if not right_t:
+        raise AnchorLost("the arm of select(.., stopped) on which the stop future completed, in ws::try_recv")
+    for bi, st in stops:
+        R.check(any(b.dominates(t, bi) for t in right_t), "C11.R5", "try_recv:stopped-only-when-stop-future-completed", "Receive::Stopped is produced only when the stop future completed", "ws::try_recv reports `Stopped` on an arm where the server was not stopped (e.g. the missed-pings close): the connection task then waits for all in-flight calls before it ends, so a connection the server itself closed keeps its slot and new clients get 429", "%s:%d" % (b.file, st["sp"][0]))
+
+
 def rcfg_config_verbatim(ctx):
     """the configured `max_connections` reaches the ServerConfig unchanged (setter stores its argument, build()/Clone copy it)"""
     from .common import config_field_integrity
     config_field_integrity(ctx, "C11.CFG", "max_connections")
 
 
-RULES = [r1_gate, r2_hold_until_done, r3_no_forget, r4_limit_provenance, rcfg_config_verbatim]
+RULES = [r1_gate, r2_hold_until_done, r3_no_forget, r4_limit_provenance, r5_ws_close_reasons, rcfg_config_verbatim]
 
 LEVEL_TEXT = (
     "Structural necessary conditions of the connection cap decided from the type-checked program: the acquire arm "
